@@ -18,6 +18,10 @@ theorem typeOf_of_hasType : ∀ (v : Val) (t : Ty), hasTypeB v t = true → type
     simp only [hasTypeB, beq_iff_eq] at h; simp [typeOf, h]
   | .opaque s _, .scalar s', h => by
     simp only [hasTypeB, Bool.and_eq_true, beq_iff_eq] at h; simp [typeOf, h.1]
+  | .derived c s _, .scalar s', h => by
+    simp only [hasTypeB, Bool.and_eq_true, beq_iff_eq] at h; simp [typeOf, h.1]
+  | .enumv n _, .scalar s', h => by
+    simp only [hasTypeB, beq_iff_eq] at h; simp [typeOf, h]
   | .obj t _, .obj t', h => by
     simp only [hasTypeB, beq_iff_eq] at h; simp [typeOf, h]
   | .tuple vs, .tuple ts, h => by
@@ -29,6 +33,8 @@ theorem typeOf_of_hasType : ∀ (v : Val) (t : Ty), hasTypeB v t = true → type
   | .str _, .obj _, h | .str _, .tuple _, h | .str _, .array _, h
   | .bool _, .obj _, h | .bool _, .tuple _, h | .bool _, .array _, h
   | .opaque _ _, .obj _, h | .opaque _ _, .tuple _, h | .opaque _ _, .array _, h
+  | .derived _ _ _, .obj _, h | .derived _ _ _, .tuple _, h | .derived _ _ _, .array _, h
+  | .enumv _ _, .obj _, h | .enumv _ _, .tuple _, h | .enumv _ _, .array _, h
   | .obj _ _, .scalar _, h | .obj _ _, .tuple _, h | .obj _ _, .array _, h
   | .tuple _, .scalar _, h | .tuple _, .obj _, h | .tuple _, .array _, h
   | .array _ _, .scalar _, h | .array _ _, .obj _, h | .array _ _, .tuple _, h => by
@@ -47,80 +53,139 @@ theorem allHaveType_iff (vs : List Val) (t : Ty) :
   | nil => simp [allHaveType]
   | cons v vs ih => simp [allHaveType, ih]
 
-/-! ### implicit conversions -/
+/-! ### scalar conversions -/
+
+/-- a value of a std scalar type carries no user-scalar tag -/
+theorem unwrap_base {v : Val} {x : Scalar} (h : hasTypeB v (.scalar (.base x)) = true) : unwrap v = v := by
+  cases v <;> simp [hasTypeB] at h <;> simp [unwrap]
+
+/-- retagging along an implicit cast between std scalars -/
+theorem convScalar_typed {v : Val} {x y : Scalar} (hv : hasTypeB v (.scalar (.base x)) = true)
+    (hc : castableS x y = true) : hasTypeB (convScalar y v) (.scalar (.base y)) = true := by
+  have hk := kind_of_castable hc
+  cases v with
+  | num s n d =>
+    simp only [hasTypeB, Bool.and_eq_true, beq_iff_eq, Sc.base.injEq] at hv
+    obtain ⟨rfl, hn⟩ := hv
+    have : isNumeric y = true := by rw [← hk.1]; exact hn
+    simp [convScalar, this, hasTypeB]
+  | str s =>
+    simp only [hasTypeB, beq_iff_eq, Sc.base.injEq] at hv
+    subst hv
+    have h := hk.2.2.1
+    simp only [BEq.rfl] at h
+    have : y = .str := beq_iff_eq.1 h.symm
+    subst this
+    simp [convScalar, hasTypeB]
+  | bool b =>
+    simp only [hasTypeB, beq_iff_eq, Sc.base.injEq] at hv
+    subst hv
+    have h1 : (y == Scalar.bool) = true := by rw [← hk.2.2.2]; rfl
+    have h2 : (y == Scalar.str) = false := by rw [← hk.2.2.1]; rfl
+    have : y = .bool := beq_iff_eq.1 h1
+    subst this
+    simp [convScalar, hasTypeB]
+  | «opaque» s k =>
+    simp only [hasTypeB, Bool.and_eq_true, beq_iff_eq, Sc.base.injEq] at hv
+    obtain ⟨rfl, hn⟩ := hv
+    have : isOpaque y = true := by rw [← hk.2.1]; exact hn
+    simp [convScalar, this, hasTypeB]
+  | obj _ _ => simp [hasTypeB] at hv
+  | tuple _ => simp [hasTypeB] at hv
+  | array _ _ => simp [hasTypeB] at hv
+  | derived _ _ _ => simp [hasTypeB] at hv
+  | enumv _ _ => simp [hasTypeB] at hv
+
+/-- conversion of a scalar value along the conversion order -/
+theorem convSc_typed {v : Val} {a c : Sc} (hv : hasTypeB v (.scalar a) = true)
+    (hc : convertibleSc a c = true) : hasTypeB (convVal (.scalar c) v) (.scalar c) = true := by
+  simp only [convertibleSc, Bool.or_eq_true, beq_iff_eq] at hc
+  rcases hc with rfl | hc
+  · -- same type
+    cases a with
+    | base x =>
+      simp only [convVal, unwrap_base hv]
+      exact convScalar_typed hv (castableS_refl x)
+    | derived ch x => simp [convVal, hv]
+    | enum n => simpa [convVal] using hv
+  · split at hc
+    · rename_i x y hx
+      cases a with
+      | base x' =>
+        simp only [Sc.top, Option.some.injEq] at hx
+        subst hx
+        simp only [convVal, unwrap_base hv]
+        exact convScalar_typed hv hc
+      | derived ch x' =>
+        simp only [Sc.top, Option.some.injEq] at hx
+        subst hx
+        cases v with
+        | derived ch' s w =>
+          simp only [hasTypeB, Bool.and_eq_true, beq_iff_eq, Sc.derived.injEq] at hv
+          obtain ⟨⟨_, rfl⟩, hw⟩ := hv
+          simp only [convVal, unwrap, unwrap_base hw]
+          exact convScalar_typed hw hc
+        | num _ _ _ => simp [hasTypeB] at hv
+        | str _ => simp [hasTypeB] at hv
+        | bool _ => simp [hasTypeB] at hv
+        | «opaque» _ _ => simp [hasTypeB] at hv
+        | obj _ _ => simp [hasTypeB] at hv
+        | tuple _ => simp [hasTypeB] at hv
+        | array _ _ => simp [hasTypeB] at hv
+        | enumv _ _ => simp [hasTypeB] at hv
+      | enum n => simp [Sc.top] at hx
+    · cases hc
+
+/-! ### conversions on all types -/
 
 mutual
-theorem convVal_hasType : ∀ (v : Val) (a c : Ty), hasTypeB v a = true → implCastable a c = true →
+theorem convVal_hasType : ∀ (v : Val) (a c : Ty), hasTypeB v a = true → convertible a c = true →
     hasTypeB (convVal c v) c = true
-  | .num s n d, .scalar a, .scalar c, hv, hc => by
-    simp only [hasTypeB, Bool.and_eq_true, beq_iff_eq] at hv
-    simp only [implCastable] at hc
-    obtain ⟨rfl, hn⟩ := hv
-    have hk := kind_of_castable hc
-    have : isNumeric c = true := by rw [← hk.1]; exact hn
-    simp [convVal, this, hasTypeB]
-  | .str x, .scalar a, .scalar c, hv, hc => by
-    simp only [hasTypeB, beq_iff_eq] at hv
-    simp only [implCastable] at hc
-    subst hv
-    have hk := (kind_of_castable hc).2.2.1
-    simp only [BEq.rfl] at hk
-    simp [convVal, hasTypeB, ← hk]
-  | .bool x, .scalar a, .scalar c, hv, hc => by
-    simp only [hasTypeB, beq_iff_eq] at hv
-    simp only [implCastable] at hc
-    subst hv
-    have hk := kind_of_castable hc
-    have h1 : (c == Scalar.bool) = true := by rw [← hk.2.2.2]; rfl
-    have h2 : (c == Scalar.str) = false := by rw [← hk.2.2.1]; rfl
-    simp [convVal, hasTypeB, h1, h2]
-  | .opaque s k, .scalar a, .scalar c, hv, hc => by
-    simp only [hasTypeB, Bool.and_eq_true, beq_iff_eq] at hv
-    simp only [implCastable] at hc
-    obtain ⟨rfl, hn⟩ := hv
-    have hk := kind_of_castable hc
-    have : isOpaque c = true := by rw [← hk.2.1]; exact hn
-    simp [convVal, this, hasTypeB]
+  | v, .scalar a, .scalar c, hv, hc => by
+    simp only [convertible] at hc
+    exact convSc_typed hv hc
   | .obj t i, .obj a, .obj c, hv, hc => by
     simp only [hasTypeB, beq_iff_eq] at hv
-    simp only [implCastable, beq_iff_eq] at hc
+    simp only [convertible, beq_iff_eq] at hc
     simp [convVal, hasTypeB, hv, hc]
   | .tuple vs, .tuple as, .tuple cs, hv, hc => by
     simp only [hasTypeB] at hv
-    simp only [implCastable] at hc
+    simp only [convertible] at hc
     simp only [convVal, hasTypeB]
     exact convValL_hasType vs as cs hv hc
   | .array e vs, .array a, .array c, hv, hc => by
     simp only [hasTypeB, Bool.and_eq_true] at hv
-    simp only [implCastable] at hc
+    simp only [convertible] at hc
     simp only [convVal, hasTypeB, Bool.and_eq_true]
     exact ⟨Ty.beq_refl c, convAll_hasType vs a c hv.2 hc⟩
   | .num _ _ _, .obj _, _, hv, _ | .num _ _ _, .tuple _, _, hv, _ | .num _ _ _, .array _, _, hv, _
   | .str _, .obj _, _, hv, _ | .str _, .tuple _, _, hv, _ | .str _, .array _, _, hv, _
   | .bool _, .obj _, _, hv, _ | .bool _, .tuple _, _, hv, _ | .bool _, .array _, _, hv, _
   | .opaque _ _, .obj _, _, hv, _ | .opaque _ _, .tuple _, _, hv, _ | .opaque _ _, .array _, _, hv, _
-  | .obj _ _, .scalar _, _, hv, _ | .obj _ _, .tuple _, _, hv, _ | .obj _ _, .array _, _, hv, _
-  | .tuple _, .scalar _, _, hv, _ | .tuple _, .obj _, _, hv, _ | .tuple _, .array _, _, hv, _
-  | .array _ _, .scalar _, _, hv, _ | .array _ _, .obj _, _, hv, _
-  | .array _ _, .tuple _, _, hv, _ => by
+  | .derived _ _ _, .obj _, _, hv, _ | .derived _ _ _, .tuple _, _, hv, _
+  | .derived _ _ _, .array _, _, hv, _
+  | .enumv _ _, .obj _, _, hv, _ | .enumv _ _, .tuple _, _, hv, _ | .enumv _ _, .array _, _, hv, _
+  | .obj _ _, .tuple _, _, hv, _ | .obj _ _, .array _, _, hv, _
+  | .tuple _, .obj _, _, hv, _ | .tuple _, .array _, _, hv, _
+  | .array _ _, .obj _, _, hv, _ | .array _ _, .tuple _, _, hv, _ => by
     simp [hasTypeB] at hv
   | _, .scalar _, .obj _, _, hc | _, .scalar _, .tuple _, _, hc | _, .scalar _, .array _, _, hc
   | _, .obj _, .scalar _, _, hc | _, .obj _, .tuple _, _, hc | _, .obj _, .array _, _, hc
   | _, .tuple _, .scalar _, _, hc | _, .tuple _, .obj _, _, hc | _, .tuple _, .array _, _, hc
   | _, .array _, .scalar _, _, hc | _, .array _, .obj _, _, hc | _, .array _, .tuple _, _, hc => by
-    simp [implCastable] at hc
+    simp [convertible] at hc
 theorem convValL_hasType : ∀ (vs : List Val) (as cs : List Ty), hasTypeL vs as = true →
-    implCastableL as cs = true → hasTypeL (convValL cs vs) cs = true
+    convertibleL as cs = true → hasTypeL (convValL cs vs) cs = true
   | [], [], [], _, _ => rfl
   | v :: vs, a :: as, c :: cs, hv, hc => by
     simp only [hasTypeL, Bool.and_eq_true] at hv
-    simp only [implCastableL, Bool.and_eq_true] at hc
+    simp only [convertibleL, Bool.and_eq_true] at hc
     simp only [convValL, hasTypeL, Bool.and_eq_true]
     exact ⟨convVal_hasType v a c hv.1 hc.1, convValL_hasType vs as cs hv.2 hc.2⟩
   | [], _ :: _, _, hv, _ | _ :: _, [], _, hv, _ => by simp [hasTypeL] at hv
-  | [], [], _ :: _, _, hc | _ :: _, _ :: _, [], _, hc => by simp [implCastableL] at hc
+  | [], [], _ :: _, _, hc | _ :: _, _ :: _, [], _, hc => by simp [convertibleL] at hc
 theorem convAll_hasType : ∀ (vs : List Val) (a c : Ty), allHaveType vs a = true →
-    implCastable a c = true → allHaveType (convAll c vs) c = true
+    convertible a c = true → allHaveType (convAll c vs) c = true
   | [], _, _, _, _ => by simp [convAll, allHaveType]
   | v :: vs, a, c, hv, hc => by
     simp only [allHaveType, Bool.and_eq_true] at hv
